@@ -384,6 +384,54 @@ fn own_files(threads: usize, rounds: usize, yield_every: u64) -> Result<(u64, St
     Ok(((threads * rounds) as u64, format!("{threads} threads x {rounds} write / read-back calls on files of their own in one directory agree with the sequential run")))
 }
 
+/// runs that share no cell but one standard output: every thread prints rows of its own through the standard library
+/// (`print_array` of W equal tags, `print` of one long string); the parent process reads the output and accepts only whole
+/// rows - a line no sequential run prints (two rows spliced, half a row) means a call's output was not written as one piece
+fn stdout_rows(threads: usize, width: usize, yield_every: u64) -> Result<(u64, String), String> {
+    let rows = 60usize;
+    let f = parse_function("(tag: string, w: int, n: int) -> int { row := [tag; w]; long := row~ $+; i := mut 0; while *i < n { std.io.print_array(row, \",\"); std.io.print(long); i += 1; } return *i }").ok_or("printer rejected")?;
+    let barrier = Arc::new(Barrier::new(threads));
+    let mut handles = Vec::new();
+    for t in 0..threads {
+        let (f, barrier) = (f.clone(), barrier.clone());
+        handles.push(std::thread::Builder::new().stack_size(64 << 20).spawn(move || -> Result<(), String> {
+            verif::set_yield_every(yield_every);
+            let tag = format!("t{t}");
+            let code = f.create_call(vec![Variable::String(Arc::from(tag.as_str())), Variable::Int(width as i64), Variable::Int(rows as i64)]).map_err(|e| format!("{e}"))?;
+            barrier.wait();
+            match real::guarded(|| code.exec()) {
+                Ok(Ok(Variable::Int(n))) if n == rows as i64 => Ok(()),
+                Ok(other) => Err(format!("printing thread got {other:?}")),
+                Err(p) => Err(format!("printing thread panicked at {}: {}", p.site(), p.short_msg())),
+            }
+        }).map_err(|e| format!("spawn: {e}"))?);
+    }
+    for h in handles {
+        h.join().map_err(|_| "worker thread died".to_string())??;
+    }
+    Ok(((threads * rows * 2) as u64, format!("{threads} threads x {rows} x 2 rows of width {width} printed to one standard output")))
+}
+
+/// parent side of the *stdout* scenario: every line before the final one must be a whole row
+fn judge_stdout_rows(out: &str, threads: usize, width: usize) -> Result<usize, String> {
+    let lines: Vec<&str> = out.lines().collect();
+    let body = &lines[..lines.len().saturating_sub(1)];
+    let mut per_thread = std::collections::HashMap::new();
+    for l in body {
+        let toks: Vec<&str> = if l.contains(',') { l.split(',').collect() } else { vec![l] };
+        let tag: String = toks[0].chars().take(1).chain(toks[0].chars().skip(1).take_while(|c| c.is_ascii_digit())).collect();
+        let whole = if l.contains(',') { toks.len() == width && toks.iter().all(|x| *x == tag) } else { *l == tag.repeat(width) };
+        if !whole || !tag.starts_with('t') || tag.len() < 2 {
+            return Err(format!("standard output holds the line {:?}, which no sequential run prints (rows are {width} equal tags): a call's output was not written as one piece (result differs from the sequential run)", truncate(l, 200)));
+        }
+        *per_thread.entry(tag).or_insert(0usize) += 1;
+    }
+    if per_thread.len() != threads || per_thread.values().any(|n| *n != 120) {
+        return Err(format!("standard output holds {} whole rows from {} tags, expected 120 from each of {threads} (result differs from the sequential run)", body.len(), per_thread.len()));
+    }
+    Ok(body.len())
+}
+
 /// one shared function value whose *sites* (type tests, type arms, value arms, type filters, operators over unions) see
 /// values of a different runtime type from every thread at the same time: anything an implementation remembers per
 /// site (inline caches, memoised verdicts) must not leak between threads. Each call's result is compared with the
@@ -833,6 +881,7 @@ pub fn child(spec: &str) {
             "mixed" => mixed_stores(threads.max(2), size, yld),
             "polling" => polling(size, yld),
             "files" => own_files(threads.max(2), size, yld),
+            "stdout" => stdout_rows(threads.max(2), size.max(2), yld),
             r if r.starts_with("cross") => cross_cells(r[5..].parse().unwrap_or(0), threads.max(2), size, yld),
             other => Err(format!("unknown scenario {other}")),
         }
@@ -866,7 +915,8 @@ pub fn run(cfg: &Cfg, rep: &mut Report) {
         }
         let threads = *rng.pick(&[2usize, 2, 3, 4, 4, 8, 16]);
         let yld = *rng.pick(&[0usize, 0, 1, 2, 5]);
-        let (scenario, size) = match rng.below(29) {
+        let (scenario, size) = match rng.below(31) {
+            29 | 30 => ("stdout".to_string(), *rng.pick(&[3usize, 16, 17, 40, 100])),
             28 => ("files".to_string(), *rng.pick(&[20usize, 100, 300])),
             26 | 27 => ("polling".to_string(), rng.below(4)),
             24 | 25 => ("mixed".to_string(), *rng.pick(&[1usize, 4, 8])),
@@ -901,6 +951,15 @@ pub fn run(cfg: &Cfg, rep: &mut Report) {
             rep.inconclusive("child-failed-to-start");
             continue;
         };
+        // read the child's output while it runs (a scenario may print more than a pipe holds)
+        let reader = child.stdout.take().map(|mut o| {
+            std::thread::spawn(move || {
+                use std::io::Read;
+                let mut out = String::new();
+                let _ = o.read_to_string(&mut out);
+                out
+            })
+        });
         // wait with a generous stall threshold: the verdict on a stall comes from the thread dump, not from the clock
         let started = std::time::Instant::now();
         let status = loop {
@@ -938,12 +997,14 @@ pub fn run(cfg: &Cfg, rep: &mut Report) {
                 }
             }
             Some(st) => {
-                let mut out = String::new();
-                if let Some(mut o) = child.stdout.take() {
-                    use std::io::Read;
-                    let _ = o.read_to_string(&mut out);
+                let out = reader.and_then(|h| h.join().ok()).unwrap_or_default();
+                let mut line = out.lines().last().unwrap_or("").to_string();
+                if scenario == "stdout" && line.starts_with("OK ") {
+                    match judge_stdout_rows(&out, threads.max(2), size.max(2)) {
+                        Ok(n) => rep.add("stdout-rows-read", n as u64),
+                        Err(why) => line = format!("VIOLATION {why}"),
+                    }
                 }
-                let line = out.lines().last().unwrap_or("").to_string();
                 if let Some(rest) = line.strip_prefix("OK ") {
                     let ops: u64 = rest.split(' ').next().and_then(|x| x.parse().ok()).unwrap_or(0);
                     rep.add("operations", ops);
